@@ -15,7 +15,7 @@ PROP = "C14"
 MODE = "multi"
 RULE = ("for each of 20 element universes of 2-5 values (f64, f64 with +0/-0, f32, u8, u64, i8, i64, r64 incl. an unreduced spelling, string, bool, "
         "(f64,f64), (f64,string), (u8,bool), tuples with +0/-0, sets of f64 / u8 / string / tuples, sets of f64 in permuted orders, "
-        "sets with +0/-0): pairs of subsets of a 4-value universe (thorough: all 16x16 pairs under all 8 operators, twice; quick: all 256 pairs of the "
+        "sets with +0/-0): pairs of subsets of a 4-value universe (thorough: all 16x16 pairs under all 8 operators, twice for f64/string/u8/i64/bool; quick: all 256 pairs of the "
         "f64 universe and a sample of 40 / 20 / 12 / 6 pairs for scalar / nested / hash-mismatching / depth-3 universes, 2 rotating operators each), "
         "each operand written as a sequence of <= 6 elements (<= 5 / 3 for nested kinds in quick: the parser is exponential in nesting depth) in a "
         "random insertion order with random repetitions, under union, intersection, difference, symmetric difference, subset, proper subset, "
@@ -415,7 +415,7 @@ def generate(tier, rng):
                 ops = allops
             for op in ops:
                 yield bin_case(uname, written(a, rng, maxlen), written(b, rng, maxlen), op, rng, mism)
-                if not quick:
+                if not quick and depth == 1 and uname in ("f64", "string", "u8", "i64", "bool"):
                     yield bin_case(uname, written(a, rng, maxlen), written(b, rng, maxlen), op, rng, mism)
         # --- membership of every value in every subset ---
         for s in subs:
